@@ -206,20 +206,20 @@ func rfcDecodeUpdate(body []byte) (*rfcUpdate, error) {
 // ---------------------------------------------------------------- send side
 
 type c16Update struct {
-	IP      [4]byte `json:"ip"`
-	Bits    int     `json:"bits"`
-	IP16    bool    `json:"ip16"` // hand the prefix over in 16-byte form
-	Masked  bool    `json:"masked"`
-	ASN     uint32  `json:"asn"`
-	IBGP    bool    `json:"ibgp"`
-	FBASN   bool    `json:"fbasn"`
-	NextHop [4]byte `json:"nh"`
-	LP      uint32  `json:"lp"`
-	Comms   []uint32 `json:"comms"`
-	Large   int     `json:"large"` // index at which a large community is inserted, -1 none
-	Withdraw int    `json:"withdraw"` // >0: also test sendWithdraw with that many prefixes
-	WdrIPs  [][4]byte `json:"wips"`
-	WdrBits []int   `json:"wbits"`
+	IP       [4]byte   `json:"ip"`
+	Bits     int       `json:"bits"`
+	IP16     bool      `json:"ip16"` // hand the prefix over in 16-byte form
+	Masked   bool      `json:"masked"`
+	ASN      uint32    `json:"asn"`
+	IBGP     bool      `json:"ibgp"`
+	FBASN    bool      `json:"fbasn"`
+	NextHop  [4]byte   `json:"nh"`
+	LP       uint32    `json:"lp"`
+	Comms    []uint32  `json:"comms"`
+	Large    int       `json:"large"`    // index at which a large community is inserted, -1 none
+	Withdraw int       `json:"withdraw"` // >0: also test sendWithdraw with that many prefixes
+	WdrIPs   [][4]byte `json:"wips"`
+	WdrBits  []int     `json:"wbits"`
 }
 
 var asnBoundary = []uint32{1, 2, 255, 256, 23455, 23456, 23457, 32767, 32768, 65534, 65535, 65536, 65537, 131072, 4199999999, 4200000000, 4294967294, 4294967295}
@@ -804,7 +804,7 @@ func runC16ReadOpen(c c16ReadOpen, tr *vw.Trace) *vw.Violation {
 }
 
 var c16ReadOpenOpts = vw.Options{Property: "C16", Engine: "readopen",
-	Rule: "structured OPEN (0..3 capability options, known/unknown capabilities, optional 4-byte ASN capability at a random position, trailing sentinel bytes) and mutations of it (truncation, length-field lies, byte patches, raw bytes) -> readOpen through a counting reader; non-trivial = well-formed, or mutated with >=29 bytes",
+	Rule:        "structured OPEN (0..3 capability options, known/unknown capabilities, optional 4-byte ASN capability at a random position, trailing sentinel bytes) and mutations of it (truncation, length-field lies, byte patches, raw bytes) -> readOpen through a counting reader; non-trivial = well-formed, or mutated with >=29 bytes",
 	Assumptions: []string{"a well-formed OPEN has hold time 0 or >=3 and at most one 4-byte-ASN capability"}}
 
 func TestVerifC16ReadOpen(t *testing.T) {
